@@ -6,9 +6,9 @@ HOOKS = ['JLS_VERIF_SIGNAL_COUNT=3', 'JLS_VERIF_SOURCE_COUNT=2', 'JLS_VERIF_FSR_
 
 def stack_obl(name, mode, total, extra=(), timeout=900, tiers=('quick', 'thorough'), desc='', bound='', nsig=1, mem_gb=24, real_dt=False):
     sbytes = 1 if 'U8_SAMPLES=1' in extra else 4
-    return Obl(name, 'c01_stack.c', units=['wr_fsr.c', 'core.c', 'track.c', 'buffer.c'] + (['datatype.c'] if real_dt else []),
+    return Obl(name, 'c01_stack.c', units=['wr_fsr.c', 'core.c', 'track.c', 'buffer.c'] + (['datatype.c'] if real_dt else []), stubs=['log_stub.c', 'fp_stub.c'],
                defines=HOOKS + ['MODE_%s=1' % mode, 'TOTAL=%d' % total, 'NSIG=%d' % nsig] + ([] if real_dt else ['STUB_DT=1']) + list(extra),
-               unwind=20, unwind_text=[('harness', r'SYM_BYTES', total * sbytes + 2),
+               unwind=20, unwindset=['wr_summary:4', 'jls_core_fsr_summaryN:4', 'jls_core_fsr_summary1:3'], unwind_text=[('harness', r'SYM_BYTES', total * sbytes + 2),
                                        ('jls_core_fsr_summaryN', r'SUMMARYN_BODY_TEMPLATE', 4), ('jls_core_fsr_summary1', r'idx < summaries_per', 4),
                                        ('jls_core_fsr_summary1', r'sample < self->parent->signal_def.sample_decimate_factor', 4),                                        ('harness', r'i < BLOCK', 6)],
                timeout=timeout, backend=PORTFOLIO, typed_calloc=True, objbits=10, tiers=tiers, mem_gb=mem_gb,
